@@ -75,7 +75,8 @@ def power(I, st, a, b):
             if b == Fraction(1, 2):
                 yield from sqrt(I, st, a)
                 return
-            raise Unsupported("fractional power of constants")
+            yield from rational_power(I, st, a, b)
+            return
         bb = int(b)
         try:
             r = Fraction(a) ** bb if (isinstance(a, Fraction) or bb < 0 or isinstance(b, Fraction)) else a**bb
@@ -85,12 +86,16 @@ def power(I, st, a, b):
         yield st, r
         return
     if is_z3(b):
+        if not is_z3(a) and isinstance(a, (int, Fraction)) and not isinstance(a, bool) and a > 1 and (z3.is_real(b) or isinstance(a, Fraction)):
+            yield from const_base_power(I, st, a, b)
+            return
         raise Unsupported("symbolic exponent")
     if isinstance(b, Fraction) and b.denominator != 1:
         if b == Fraction(1, 2):
             yield from sqrt(I, st, a)
             return
-        raise Unsupported("fractional power")
+        yield from rational_power(I, st, a, b)
+        return
     n = int(b)
     isfloat = isinstance(b, Fraction) or is_reallike(a) or n < 0
     base = z3val(a)
@@ -110,6 +115,105 @@ def power(I, st, a, b):
                 yield st1, exc("ZeroDivisionError")
         return
     yield st, r
+
+
+def _definitely_infeasible(I, st, ms=5000):
+    """second look at a branch the 400 ms feasibility pruning kept (it keeps a branch on `unknown`): True only when the
+    quantifier-free path condition is UNSAT within a longer budget - used before giving up with Unsupported"""
+    qf = [t for t in st.pc if not I._has_quant(t)]
+    r, _ = I.check(qf, timeout_ms=ms)
+    return r == "unsat"
+
+
+def rational_power(I, st, a, b):
+    """a ** (p/q) for a concrete non-integer rational exponent p/q (q > 1, lowest terms) over the reals (A1):
+    a > 0: (root_q a) ** p where root_q a is THE positive real y with y**q == a (uninterpreted function + its defining
+    facts, like sqrt); a == 0: 0.0 for p > 0, ZeroDivisionError for p < 0 (as CPython); a < 0: CPython returns a
+    complex number - outside the model (Unsupported when that branch is feasible)."""
+    p, q = b.numerator, b.denominator
+    zx = z3val(as_arith(a))
+    if z3.is_int(zx):
+        zx = z3.ToReal(zx)
+    I.trust("root", "A1: x ** (p/q) for x > 0 is y**p with y the positive real q-th root of x (y > 0, y**q = x)")
+    for st1, neg_ in I.branch(st, zx < 0):
+        if neg_:
+            if _definitely_infeasible(I, st1):
+                continue
+            raise Unsupported("negative base ** fractional exponent (complex result)")
+        for st2, zero in I.branch(st1, zx == 0):
+            if zero:
+                yield st2, (Fraction(0) if p > 0 else exc("ZeroDivisionError", "0.0 cannot be raised to a negative power"))
+                continue
+            f = I.func("root%d" % q, z3.RealSort(), z3.RealSort())
+            y = f(zx)
+            yq = y
+            for _ in range(q - 1):
+                yq = yq * y
+            st2.pc.append(y > 0)
+            st2.pc.append(yq == zx)
+            r = y
+            for _ in range(abs(p) - 1):
+                r = r * y
+            yield st2, (r if p > 0 else 1 / r)
+
+
+LN_DBL_MAX_LO = Fraction(70978, 100)  # ln(DBL_MAX) = 709.7827...: below 709.78 e**x is a finite float, above 709.79 it is not
+LN_DBL_MAX_HI = Fraction(70979, 100)
+
+
+def _positive_real_function(I, st, fname, zx, lo, hi, what):
+    """shared by exp and const_base_power: fork OverflowError where CPython certainly overflows (x >= hi), refuse the
+    thin band lo < x < hi (Unsupported when feasible), else the under-specified uninterpreted positive function"""
+    for st1, over in I.branch(st, zx >= z3val(hi)):
+        if over:
+            yield st1, exc("OverflowError", "(34, 'Numerical result out of range')")
+            continue
+        for st2, band in I.branch(st1, zx > z3val(lo)):
+            if band:
+                if _definitely_infeasible(I, st2):
+                    continue
+                raise Unsupported(what + " within rounding distance of the float overflow threshold")
+            f = I.func(fname, z3.RealSort(), z3.RealSort())
+            y = f(zx)
+            st2.pc.append(y > 0)
+            st2.pc.append((y <= 1) == (zx <= 0))
+            st2.pc.append((y == 1) == (zx == 0))
+            yield st2, y
+
+
+def const_base_power(I, st, a, x):
+    """a ** x for a CONCRETE real base a > 1 and a symbolic real exponent x (float result), UNDER-SPECIFIED like exp: an
+    uninterpreted function per base with the facts a**x > 0, (a**x <= 1) == (x <= 0), (a**x == 1) == (x == 0) - all true
+    of the real power, so whatever is proved holds for it.  CPython raises OverflowError when the result exceeds the
+    float range (x ln a > ln DBL_MAX = 709.78..): forked as that exception (thresholds rounded outwards, the band in
+    between is Unsupported)."""
+    zx = z3val(as_arith(x))
+    if z3.is_int(zx):
+        zx = z3.ToReal(zx)
+    lna = math.log(float(a))
+    lo = Fraction(int(float(LN_DBL_MAX_LO) / lna * 1000 - 1), 1000)
+    hi = Fraction(int(float(LN_DBL_MAX_HI) / lna * 1000 + 2), 1000)
+    I.trust("cpow", "A1: c ** x (concrete c > 1) is an uninterpreted positive real function of x with c**x <= 1 iff x <= 0 (sound facts only)")
+    fa = Fraction(a)
+    yield from _positive_real_function(I, st, "pow_%d_%d" % (fa.numerator, fa.denominator), zx, lo, hi, "constant ** symbolic exponent")
+
+
+def exp(I, st, x):
+    """math.exp(x) over the reals (A1) as an UNDER-SPECIFIED uninterpreted function: only facts true of the real
+    exponential are given (e(x) > 0, e(x) >= 1 + x, e(x) <= 1 iff x <= 0, e(x) = 1 iff x = 0), so whatever is proved
+    holds for the real exp.  CPython raises OverflowError above ln DBL_MAX = 709.78..: forked as that exception."""
+    x = as_arith(x)
+    if not is_z3(x) and x == 0:
+        yield st, Fraction(1)
+        return
+    zx = z3val(x)
+    if z3.is_int(zx):
+        zx = z3.ToReal(zx)
+    I.trust("exp", "A1: math.exp is an uninterpreted real function with exp(x) > 0, exp(x) >= 1 + x, exp(x) <= 1 iff x <= 0 (sound facts only)")
+    for st1, y in _positive_real_function(I, st, "exp", zx, LN_DBL_MAX_LO, LN_DBL_MAX_HI, "math.exp"):
+        if not isinstance(y, Exc):
+            st1.pc.append(y >= 1 + zx)
+        yield st1, y
 
 
 def sqrt(I, st, x):
